@@ -26,8 +26,35 @@ fn fmt_path(p: &[PathEl]) -> String {
 }
 
 /// perturbations of valid paths
-fn perturbed(r: &mut Rng, root: &R, valid: &[Vec<PathEl>]) -> Vec<Vec<PathEl>> {
+fn perturbed(r: &mut Rng, root: &R, valid: &[Vec<PathEl>], text: &[u8]) -> Vec<Vec<PathEl>> {
     let mut out = vec![];
+    // keys that are confusable with the *spelling* of a member name: the raw bytes between the
+    // quotes of a name written with escapes, a prefix of them, a name cut before an escape
+    for p in valid.iter().take(30) {
+        let Ok(node) = lookup(root, p) else { continue };
+        if let K::Obj(ms) = &node.k {
+            for (k, _) in ms.iter().take(6) {
+                let raw = &text[k.start + 1..k.end.saturating_sub(1).max(k.start + 1)];
+                if !raw.contains(&b'\\') {
+                    continue;
+                }
+                let Ok(rs) = std::str::from_utf8(raw) else { continue };
+                let mut cands = vec![rs.to_string()];
+                if let Some(i) = rs.find('\\') {
+                    cands.push(rs[..i + 1].to_string());
+                    cands.push(rs[..i].to_string());
+                    if i + 2 <= rs.len() && rs.is_char_boundary(i + 2) {
+                        cands.push(rs[..i + 2].to_string());
+                    }
+                }
+                for c in cands {
+                    let mut q = p.clone();
+                    q.push(PathEl::Key(c));
+                    out.push(q);
+                }
+            }
+        }
+    }
     for p in valid.iter().take(30) {
         let Ok(node) = lookup(root, p) else { continue };
         let mut q = p.clone();
@@ -120,7 +147,7 @@ pub fn check_doc(ctx: &mut Ctx, b: &[u8], seed: u64) {
     };
     let mut r = Rng::new(seed);
     let mut paths = all_paths(&d.root, 40);
-    let pert = perturbed(&mut r, &d.root, &paths);
+    let pert = perturbed(&mut r, &d.root, &paths, b);
     let nvalid = paths.len();
     paths.extend(pert);
     if nvalid > 1 {
